@@ -15,6 +15,7 @@
     trees, no two variables for one leaf, all sources agreeing on the shape at
     every path, outside the shapes of the open findings C20-F3/C20-F4. *)
 From HV Require Import Base.Prelude C20.Model C20.Spec C20.Facts C20.MergeProofs C20.LoadProofs C20.Proofs.
+From HV Require Import C20.SchemaModel Gen.SchemaTables C20.SchemaProofs.
 From Coq Require Import Permutation.
 Open Scope string_scope.
 
@@ -74,6 +75,27 @@ Theorem C20_merge_later_wins_no_panic :
               forall p, view p r = njoin (view p dest) (view p src).
 Proof. exact merge_with_view. Qed.
 Print Assumptions C20_merge_later_wins_no_panic.
+
+(** [schema_tbl] / [loader_tbl] are regenerated on every run from
+    schema/config.schema.json and from the loader's type registries and config
+    structs (Gen/SchemaTables.v); a row is a mechanism type, its config object or
+    one of its options *)
+Theorem C20_schema_loader_agree :
+  forall r, In r (all_rows schema_tbl loader_tbl) -> guard_F1 r = false ->
+            row_agrees schema_tbl loader_tbl r = true.
+Proof. exact schema_loader_agree. Qed.
+Print Assumptions C20_schema_loader_agree.
+
+Theorem C20_F1_refuted :
+  exists r, In r (all_rows schema_tbl loader_tbl) /\ guard_F1 r = true /\
+            row_agrees schema_tbl loader_tbl r = false.
+Proof. exact F1_refuted. Qed.
+Print Assumptions C20_F1_refuted.
+
+Theorem C20_F1_rows_all_disagree :
+  forall r, In r known_F1 -> In r (all_rows schema_tbl loader_tbl) /\ row_agrees schema_tbl loader_tbl r = false.
+Proof. exact F1_rows_all_disagree. Qed.
+Print Assumptions C20_F1_rows_all_disagree.
 
 Theorem C20_F3_refuted :
   exists env env' p,
